@@ -147,6 +147,15 @@ def run(rep, tier, seed, replay=None):
             ds = hostile(rng, ctx.T)
             s4 = bytes([rng.choice([0, 0xff])] * rng.choice([2, 10, 100]))
             inputs.append(("hostile", bufrmsg.build(4, ds, rng.choice([1, 2]), rng.random() < 0.3, s4)))
+        # a claimed 16-bit delayed replication count over the longest Table D sequences, with Section 4 sizes up to 30 KiB:
+        # (bits of one replica) x (count) crosses 2^31, 2^32 ... (arithmetic of the "message too short" guard)
+        bigD = sorted(ctx.T.D, key=lambda d: -static_size(ctx.T, [d], cap=10 ** 6))[:8]
+        for _ in range(16 if tier == "quick" else 120):
+            d = rng.choice(bigD)
+            cnt = rng.choice([3, 255, 4096, 10966, 10967, 21934, 32768, 40000, 65535, rng.randrange(1, 65536)])
+            n4 = rng.choice([10, 200, 3000, 30000])
+            s4 = cnt.to_bytes(2, "big") + bytes(rng.choice([0, 0xff, 0x55]) for _ in range(n4))
+            inputs.append(("claimed_count_x_long_sequence", bufrmsg.build(4, [101000, 31002, d], 1, False, s4)))
     text = "\n".join(m.hex() for _, m in inputs) + "\n"
     rc, out, err = vlib.sh([exe, str(LIMIT_S)], input=text.encode(), timeout=3600, env=vlib.ASAN_ENV)
     outs = [l for l in out.split("\n") if l]
